@@ -274,6 +274,9 @@ def snapshots(ctx):
         ('MatrixSuppressedPlain', lambda: MatrixGrader(answers='[1,2]', suppress_matrix_messages=True), ['[1,2,3]', '[1,2]+[1,2,3]', '5', '[1,2]']),
         ('MatrixSuppressedOwnMsg', lambda: MatrixGrader(answers='[1,2]', suppress_matrix_messages=True, wrong_msg='own message'), ['[1,2,3]', '5']),
         ('FormulaPlain', lambda: FormulaGrader(answers='2*x', variables=['x']), ['2*x', 'x*2', 'x+x']),
+        ('StringSilentMin', lambda: StringGrader(accept_any=True, min_length=3, explain_minimums=None), ['ab', 'abcd', '']),
+        ('StringSilentPattern', lambda: StringGrader(answers='cat', validation_pattern='[a-z]+', explain_validation=None), ['C4T', 'cat', 'dog']),
+        ('StringSilentOwnMsg', lambda: StringGrader(accept_any=True, min_length=3, explain_minimums=None, wrong_msg='own message'), ['ab', 'abcd']),
     ]
     baseline = {nm: [canon(*GG.run_impl(lambda: mkp()(None, i)), False) for i in ins] for nm, mkp, ins in probes}
     disturbers = [
@@ -281,6 +284,8 @@ def snapshots(ctx):
         lambda k: FormulaGrader(answers='qq+1', variables=['qq', 'hh'], user_functions={'hh': f_user})(None, 'qq + hh(1) + ' + '(' * 90 + '1' + ')' * 90),
         lambda k: FormulaGrader(answers='x', variables=['x'], metric_suffixes=True)(None, 'x+0k'),
         lambda k: FormulaGrader(answers='x', variables=['x'])(None, 'sin(a)+2k*(b'),
+        lambda k: StringGrader(accept_any=True, min_length=5, explain_minimums=None, wrong_msg='message of ANOTHER string grader')(None, 'ab'),
+        lambda k: StringGrader(answers='dog', validation_pattern='[a-z]+', explain_validation=None, wrong_msg='message of ANOTHER string grader (pattern)')(None, 'D0G'),
     ]
     for k in range(ctx.scale(6, 40)):
         for di, dist in enumerate(disturbers):
